@@ -14,13 +14,13 @@ META={
    "Every single byte 0x09-0xFF and runs over a hostile alphabet are spliced as charset labels into 9 declaration syntaxes; readers fail at every offset class with 19 classes of error values (incl. io.ErrUnexpectedEOF and wrapped io.EOF from the source itself), seekers fail, files are missing or directories; plus every seed prefix, mutants and generated documents. Each returned value is checked: String() parses, type registered, only charset on the three text types, finite bare registered ancestors ending at application/octet-stream, error => exactly application/octet-stream."+HELD,
    "Trusted: mime.ParseMediaType as the definition of validity; the snapshot hook for the set of registered names."),
  "C03":M("exploration","C03","online trace-specification checking of recorded detector-call events (instrumentation hook) + independent reference walk, also under a concurrent registrar / concurrent SetLimit",
-   "All detector calls of each detection are recorded through a build-tagged hook (node, buffer pointer, len, limit, answer) and checked online against the first-match depth-first specification (no skip / backtrack / reorder, same header and limit everywhere, result chain = accepting path), then against an independent iterative walk, on the built-in tree and on trees enlarged by random Extend histories, with greybox input mutation keyed on new accept paths; through Detect, DetectReader (odd chunkings, shorter after longer inputs) and the direct match hook; also while other goroutines call SetLimit or Extend."+HELD,
+   "All detector calls of each detection are recorded through a build-tagged hook (node, buffer pointer, len, limit, answer) and checked online against the first-match depth-first specification (no skip / backtrack / reorder, same header and limit everywhere, result chain = accepting path), then against an independent iterative walk, on the built-in tree and on trees enlarged by random Extend histories, with greybox input mutation keyed on new accept paths; through Detect, DetectReader (odd chunkings, shorter after longer inputs) and the direct match hook; also while other goroutines call SetLimit or Extend. Some walks go through DetectFile on a named pipe whose writer pauses between two pieces: the detectors must still be handed the first min(len, limit) bytes."+HELD,
    "Trusted: leaf detector funcs are shared with the model (their purity is C04); the hook wraps detectors under the tree lock."),
  "C05":M("fault_enumeration","C05","instrumented io.Reader (byte counter, chunk scheduler, error injector) with expectations derived from observed reader events; standard-library reader zoo with consumption checks; file-system faults (missing, directory, /proc/self/mem, procfs size 0)",
    "For every seed and limit class a sentinel error is injected at every byte offset 0..min(len, limit) (every k-th beyond 600 bytes) under 8 chunk schedules with (0,nil) reads, data+EOF and data+error returns; error values of 15 classes (deadline / context / closed pipe / errno / EOF look-alikes); the standard library's concrete readers; DetectFile over temp files, procfs files of stat size 0, sparse files of 2-8 GiB, missing path, directory, /proc/self/mem; limit changed during the read. Checked: same chain as Detect on the bytes, bytes consumed <= limit (all when 0), error => (application/octet-stream, that error) exactly when the reader really failed before the header was complete."+HELD,
    "Trusted: only conforming readers; io.ReadFull semantics for an error returned with the completing byte."),
  "C07":M("exploration","C07","independent byte-class oracle over injected inputs, every result of the real Detect/DetectReader observed",
-   "Every one of the 256 byte values is placed at every position of short text bases (inside, last-inside and just outside the examined header), BOMs / BOM prefixes / near misses are combined with binary bytes, and every corpus seed is run alone, BOM-prefixed, sanitised and re-injected; DetectFile on procfs files (stat size 0) and temp files; each real detection result is judged by a byte-class predicate written from the statement."+HELD,
+   "Every one of the 256 byte values is placed at every position of short text bases (inside, last-inside and just outside the examined header), BOMs / BOM prefixes / near misses are combined with binary bytes, and every corpus seed is run alone, BOM-prefixed, sanitised and re-injected; DetectFile on procfs files (stat size 0) and temp files; each real detection result is judged by a byte-class predicate written from the statement. DetectFile on a named pipe whose writer delivers a clean first piece, pauses and then delivers the binary byte (limits on both sides of it)."+HELD,
    "Trusted: the hard-coded byte ranges / BOM table of the oracle."),
  "C08":M("exploration","C08","generated RFC 8259 documents (validated by encoding/json) detected at every cut point; oracle = membership in the JSON family with a priority-exception rule from the tree snapshot",
    "Random and hostile valid documents (strings starting/ending with structural characters, escapes, multi-byte runes, all number spellings, 3 whitespace layouts) are detected at EVERY limit from the opening bracket to len+1 and 0, long documents around the default limit, nesting ladders to 4096; entry points Detect / oddly chunked DetectReader / DetectFile, and a reader that changes the limit from inside Read; every printable literal of the tree's source as a string / key at signature offsets. A higher-priority verdict is an exception only if the bytes carry that format's pinned signature."+HELD,
